@@ -102,9 +102,16 @@ def size_of(v):
 FIELDS = ["pa", "pb"]
 
 
-def random_path(r, v, want=None, maxlen=3):
+MISSING_KEYS = [1, 2, 7, "k", "zz", "m"]
+
+
+def random_path(r, v, want=None, maxlen=3, materialise=False):
     """Random valid path into v.  Returns (steps, target) where steps is a list of
-    ("i", idx) | ("k", key) | ("f", field index).  want: predicate on the target."""
+    ("i", idx) | ("k", key) | ("f", field index).  want: predicate on the target.
+    materialise=True (mutating statements only): the path may go through a MISSING key of a dict that
+    has a default; such statements first insert a copy of the default under that key (documented
+    behaviour of `d[k] f= v`, `pop d[k]`, ...).  The insertion is applied to the model only for the
+    path that is finally returned."""
     for _ in range(12):
         steps = []
         cur = v
@@ -114,6 +121,10 @@ def random_path(r, v, want=None, maxlen=3):
                 i = r.randrange(len(cur))
                 steps.append(("i", i - len(cur) if r.random() < 0.3 else i))
                 cur = cur[i]
+            elif isinstance(cur, NDict) and materialise and cur.has_default and r.random() < 0.35:
+                key = r.choice(MISSING_KEYS)
+                steps.append(("k", key))
+                cur = cur.m[ckey(key)][1] if ckey(key) in cur.m else deep(cur.default)
             elif isinstance(cur, NDict) and cur.m:
                 kk = r.choice(list(cur.m))
                 steps.append(("k", cur.m[kk][0]))
@@ -125,8 +136,24 @@ def random_path(r, v, want=None, maxlen=3):
             else:
                 break
         if want is None or want(cur):
+            if materialise:
+                cur = materialise_path(v, steps)
             return steps, cur
     return None
+
+
+def materialise_path(v, steps):
+    cur = v
+    for kind, x in steps:
+        if kind == "i":
+            cur = cur[x]
+        elif kind == "k":
+            if ckey(x) not in cur.m:
+                cur.m[ckey(x)] = (x, deep(cur.default))
+            cur = cur.m[ckey(x)][1]
+        else:
+            cur = cur.fields[x]
+    return cur
 
 
 def path_src(name, steps):
@@ -384,14 +411,14 @@ def gen_stmt(r, st, closures, counter):
             tv.m[kk] = (tv.m[kk][0], deep(v))
         return "every %s[:] = %s" % (path_src(x, steps), s), kind, [x]
     if kind == "pop":
-        p = random_path(r, xv, lambda t: is_list(t) and len(t) > 0)
+        p = random_path(r, xv, lambda t: is_list(t) and len(t) > 0, materialise=True)
         if not p:
             return None
         steps, tv = p
         st["res"] = tv.pop()
         return "res = pop %s" % path_src(x, steps), kind, [x, "res"]
     if kind == "remove":
-        p = random_path(r, xv, lambda t: is_list(t) and len(t) > 0)
+        p = random_path(r, xv, lambda t: is_list(t) and len(t) > 0, materialise=True)
         if not p:
             return None
         steps, tv = p
@@ -400,7 +427,7 @@ def gen_stmt(r, st, closures, counter):
         st["res"] = tv.pop(i)
         return "res = remove %s[%d]" % (path_src(x, steps), shown) if shown >= 0 else "res = remove %s[(%d)]" % (path_src(x, steps), shown), kind, [x, "res"]
     if kind == "remove_slice":
-        p = random_path(r, xv, lambda t: is_list(t) and len(t) > 0)
+        p = random_path(r, xv, lambda t: is_list(t) and len(t) > 0, materialise=True)
         if not p:
             return None
         steps, tv = p
@@ -419,7 +446,7 @@ def gen_stmt(r, st, closures, counter):
         st["res"] = val
         return "res = remove %s[%s]" % (path_src(x, steps), src(key)), kind, [x, "res"]
     if kind == "consume":
-        p = random_path(r, xv)
+        p = random_path(r, xv, materialise=True)
         if not p:
             return None
         steps, tv = p
